@@ -227,6 +227,11 @@ func saveFetchedRefs(
 	cm := bytesSliceToMap(fetchedCommits)
 	for r, sum := range maybeSaveTags {
 		if _, ok := cm[string(sum)]; ok || objects.CommitExist(db, sum) {
+			// don't follow a tag to a commit that was only fetched shallowly
+			// (its table is not here), the tag would not be usable
+			if com, err := objects.GetCommit(db, sum); err != nil || !objects.TableExist(db, com.Table) {
+				continue
+			}
 			_, err := ref.GetRef(rs, r)
 			if err != nil {
 				ref, err := conf.NewRefspec(r, r, false, false)
